@@ -139,6 +139,7 @@ func c04Encode(c *core.Ctx, k *core.Case) {
 			c.Fail(k, "encode-error:"+def.Name, fmt.Sprintf("PlainNasEncode of a well-formed %s: %v", def.Name, err))
 			return
 		}
+		c.Hold(k, "nas.Message.PlainNasEncode", got)
 	} else {
 		enc := msgEncoder(obj, def.Name)
 		if enc == nil {
